@@ -20,6 +20,9 @@ RULES = {
     "FILL-LE": "fill(c,n) <= x elementwise when every element of x is >= c",
     "KAHN-TRUSTED": "TRUSTED: in kahn, the counts of edges from the current frontier into a node never exceed "
                     "its remaining in-degree (loop invariant: indegree[v] = number of incoming edges from unvisited nodes)",
+    "LAYER-TRUSTED": "TRUSTED: kahn assigns layer numbers < number of nodes (every iteration with a non-empty "
+                     "frontier visits at least one previously unvisited node)",
+    "PERM-SUM": "π a permutation of 0..len(x) (identity, argsort, matrix transposition): sum(x∘π) = sum(x)",
     "ID-GATHER": "gather(x, arange(0,len x)) ≡ x",
 }
 
@@ -45,6 +48,16 @@ def extra_ubs(st, t):
                 if st.eq(n, as_poly(a) * as_poly(b)):
                     out.append(("TRANSPOSE", n))
     return out
+
+
+def trusted_bound(st, t, B):
+    """LAYER-TRUSTED: the layer numbers written by kahn are < number of nodes."""
+    if t[0] == "v" and isinstance(t[1], tuple) and len(t[1]) >= 2 and t[1][0] == "loopvar":
+        nm = t[1][1]
+        if isinstance(nm, tuple) and nm[0].endswith("strict::graph::kahn") and nm[-1] == "order":
+            if st.ge(B, t_len(t)):
+                return "LAYER-TRUSTED"
+    return None
 
 
 def refute_tne(I, st, a, b):
